@@ -12,6 +12,7 @@ import (
 
 	"github.com/goreleaser/nfpm/v2"
 	v "github.com/goreleaser/nfpm/v2/internal/zzverif"
+	"github.com/goreleaser/nfpm/v2/internal/zzverif/models"
 	"github.com/goreleaser/nfpm/v2/internal/zzverif/scen"
 )
 
@@ -29,6 +30,9 @@ func Verif_C10_DebSign() {
 		got = b
 		calls++
 		return sig, nil
+	}
+	if v.NondetBool("key.file.configured.as.well") {
+		sc.Info.Deb.Signature.KeyFile = models.AddFile("/keys/deb.key", []byte("not a key"), 0o600, sc.MTime)
 	}
 	ti := v.NondetChoice("sigtype", 5)
 	typ := []string{"", "origin", "maint", "archive", ""}[ti]
@@ -107,6 +111,12 @@ func Verif_C10_ApkSign() {
 		got = b
 		return sig, nil
 	}
+	if v.NondetBool("key.file.configured.as.well") {
+		// a configuration that names a key file while the caller supplies a
+		// callback: the callback is what signs (the file is not even read)
+		sc.Info.APK.Signature.KeyFile = models.AddFile("/keys/apk.key", []byte("not a key"), 0o600, sc.MTime)
+		sc.Info.Deb.Signature.KeyFile, sc.Info.RPM.Signature.KeyFile = sc.Info.APK.Signature.KeyFile, sc.Info.APK.Signature.KeyFile
+	}
 	wantName := ""
 	switch v.NondetChoice("keyname", 3) {
 	case 0:
@@ -141,6 +151,9 @@ func Verif_C10_ApkSign() {
 func Verif_C10_RpmSign() {
 	sc := scen.Payload(scen.Options{})
 	var inputs [][]byte
+	if v.NondetBool("key.file.configured.as.well") {
+		sc.Info.RPM.Signature.KeyFile = models.AddFile("/keys/rpm.key", []byte("not a key"), 0o600, sc.MTime)
+	}
 	sc.Info.RPM.Signature.SignFn = func(r io.Reader) ([]byte, error) {
 		b, _ := io.ReadAll(r)
 		inputs = append(inputs, b)
